@@ -3,19 +3,27 @@
   answer per line on stdout.  Core-only so that it links as a `lean_exe`.
 -/
 import Vgw.Driver.Range
+import Vgw.Driver.Gw
 
-def dispatch (line : String) : String :=
+structure DriverState where
+  gw : Vgw.Driver.Gw.DState := {}
+
+def dispatch (d : DriverState) (line : String) : DriverState × String :=
   match (line.trimAscii.toString.splitOn " ").filter (· ≠ "") with
-  | "range" :: rest => (Vgw.Driver.Range.handle rest).getD "bad-op"
-  | _ => "bad-op"
+  | "range" :: rest => (d, (Vgw.Driver.Range.handle rest).getD "bad-op")
+  | "gw" :: rest =>
+    let (g, out) := Vgw.Driver.Gw.handle d.gw rest
+    ({ d with gw := g }, out.getD "bad-op")
+  | _ => (d, "bad-op")
 
-partial def loop (h : IO.FS.Stream) (out : IO.FS.Stream) : IO Unit := do
+partial def loop (h : IO.FS.Stream) (out : IO.FS.Stream) (d : DriverState) : IO Unit := do
   let line ← h.getLine
   if line.isEmpty then return ()
-  out.putStrLn (dispatch line)
-  loop h out
+  let (d', ans) := dispatch d line
+  out.putStrLn ans
+  loop h out d'
 
 def main : IO Unit := do
   let out ← IO.getStdout
-  loop (← IO.getStdin) out
+  loop (← IO.getStdin) out {}
   out.flush
